@@ -46,7 +46,9 @@ func evalC18Prom(c *Ctx, cs EnumCase) EnumResult {
 		return EnumResult{Err: err.Error()}
 	}
 	var vs []explore.Violation
-	add := func(sig, msg string) { vs = append(vs, explore.Violation{Sig: "C18:" + sig, Msg: k.name() + ": " + msg}) }
+	add := func(sig, msg string) {
+		vs = append(vs, explore.Violation{Sig: "C18:" + sig, Msg: k.name() + ": " + msg})
+	}
 	var engErr, obs string
 	rt := vrt.Run(vrt.Options{MaxPoints: 400_000_000}, func() {
 		cl, err := StartLeaderFollowers(1, nil)
